@@ -46,6 +46,14 @@ and `Ref.eval`/`Ref.runProgram` themselves:
                                   and evaluated in nested `Run`s;
 * `compile_correct_on_Fc`       — `CompileCorrect` restricted to Fc.
 
+* `segment_lemma_Ff`            — F2: expressions with `fn`/`defn` and calls of USER functions by name
+                                  (closure objects), under a relation that lets function ids differ
+                                  between the two evaluators and the linear stack hold the caller's
+                                  scopes;
+* `compile_correct_on_F2`       — `CompileCorrect` restricted to F2: `defn`/`fn` of fixed arity at any
+                                  depth, closures capturing locals, calls by name, recursion,
+                                  functions as values.
+
 `compile_correct_partial` (below) says what is proved of the semantic statement and names
 the unproved remainder (`CompileCorrectOutsideProved`).
 -/
@@ -55,6 +63,7 @@ import ZygoVerif.Spec.RefEval
 import ZygoVerif.Proofs.SimF0cTop
 import ZygoVerif.Proofs.SimFvTop
 import ZygoVerif.Proofs.SimFcTop
+import ZygoVerif.Proofs.SimF2Top
 namespace ZygoVerif.C02
 open ZygoVerif.Core ZygoVerif.VM
 
@@ -598,14 +607,18 @@ example : ∃ fuel' tr, obsOfRef (Ref.runProgram 6 demoFvErr Ref.initSt).1 = som
 /-! ## Stage D, second half — calls of first-order builtins (fragment Fc)
 
 `Fc` = Fv whose binder names (`def`/`set`/`let`/`letseq`) are not names of first-order builtins,
-plus array literals `[e₁ … eₙ]` with elements in Fc, plus calls `(h a₁ … aₙ)` where `h` is one of
+plus array literals `[e₁ … eₙ]` with elements in Fc, plus `for` loops `(for [init test incr] body…)` (labelled
+or not) whose parts are in Fc — so without `break`/`continue` —, plus calls `(h a₁ … aₙ)` where `h` is one of
 `+ - * mod < > <= >= == != not cons first rest second list array len append concat aget aset hash
 hget hset trace` and the operands are in Fc. A call is ONE VM instruction (`callExpr`); executing it
 compiles every operand at run time into a fresh function object and runs it in a nested `Run`
 (`EvalCallExpression`/`nested`), then runs the builtin under `CallUserFunction`. The relation
 (`Sim.RelC`) therefore lets the function table grow and the current function be such a helper:
 every closing list on the parent chain of the current function is a suffix of the linear scope
-stack; first-order builtin names are bound in the global frame only. -/
+stack; first-order builtin names are bound in the global frame only; no value is a stack mark
+(`Sim.Clean`: `for` pushes a mark and `popUntilMark`/`clearMark` pop down to it). The number of
+instructions a piece of code executes is no longer bounded by its length (loops), the fuel it needs
+is existential. -/
 
 /-- **Segment lemma for Fc**, spelled out (see `Sim.segment_Fc`). -/
 theorem segment_lemma_Fc (e : Expr) (he : Fc e = true) (isFn : Nat → Bool) (c : Ctx) (hfn : c.funcname = "")
@@ -617,8 +630,8 @@ theorem segment_lemma_Fc (e : Expr) (he : Fc e = true) (isFn : Nat → Bool) (c 
     | .ok v rs' => ∃ s', RelC s' rs' env ∧ fnOf s' s'.curfunc = fnOf s s.curfunc
         ∧ s'.pc = s.pc + (code.length : Int) ∧ s'.data = some v :: s.data
         ∧ s'.linear = s.linear ∧ s'.addr = s.addr ∧ s'.curfunc = s.curfunc
-        ∧ ∃ k m, k ≤ code.length ∧ ∀ fuel, m ≤ fuel → ∀ st, (runLoop (fuel + k) st).run s = (runLoop fuel st).run s'
-    | .err rs' => ∃ k m, k ≤ code.length ∧ ∀ fuel, m ≤ fuel → ∀ st,
+        ∧ ∃ k m, ∀ fuel, m ≤ fuel → ∀ st, (runLoop (fuel + k) st).run s = (runLoop fuel st).run s'
+    | .err rs' => ∃ k m, ∀ fuel, m ≤ fuel → ∀ st,
         ∃ sf, (runLoop (fuel + k) st).run s = (.error .err, sf) ∧ sf.trace = rs'.trace
     | .timeout => True
     | .brk _ _ => False
@@ -627,12 +640,12 @@ theorem segment_lemma_Fc (e : Expr) (he : Fc e = true) (isFn : Nat → Bool) (c 
   cases hres : Ref.eval n e env rs with
   | ok v rs' =>
     rw [hres] at h
-    obtain ⟨s', ⟨m, k, hk, H⟩, l, rel, -, fr⟩ := h
-    exact ⟨s', rel, l.fn, l.pc, l.data, fr.linear, fr.addr, fr.curfunc, k, m, hk, H⟩
+    obtain ⟨s', ⟨K, m, k, hk, H⟩, l, rel, -, fr, -⟩ := h
+    exact ⟨s', rel, l.fn, l.pc, l.data, fr.linear, fr.addr, fr.curfunc, k, m, H⟩
   | err rs' =>
     rw [hres] at h
-    obtain ⟨k, hk, m, H⟩ := h
-    exact ⟨k, m, hk, H⟩
+    obtain ⟨K, k, hk, m, H⟩ := h
+    exact ⟨k, m, H⟩
   | timeout => trivial
   | brk l rs' => rw [hres] at h; exact h
   | cont l rs' => rw [hres] at h; exact h
@@ -681,6 +694,18 @@ def demoFcArr : List Expr :=
 
 example : FcList demoFcArr = true := by decide
 
+/-- `(def s 0) (for [(def i 0) (< i 4) (set i (+ i 1))] (set s (+ s i)) (for [(def j 0) (< j i) (set j (+ j 1))]
+(trace j))) s`: nested loops, a loop variable in the loop scope, effects on a global, traces -/
+def demoFcFor : List Expr :=
+  [.def_ "s" (.int 0),
+   .for_ none (.def_ "i" (.int 0)) (.call (.sym "<") [.sym "i", .int 4]) (.set_ "i" (.call (.sym "+") [.sym "i", .int 1]))
+     [.set_ "s" (.call (.sym "+") [.sym "s", .sym "i"]),
+      .for_ (some "inner") (.def_ "j" (.int 0)) (.call (.sym "<") [.sym "j", .sym "i"])
+        (.set_ "j" (.call (.sym "+") [.sym "j", .int 1])) [.call (.sym "trace") [.sym "j"]]],
+   .sym "s"]
+
+example : FcList demoFcFor = true := by decide
+
 /-- `(def a (+ 1 2)) (trace (* a a))`: value 9, one `trace` call -/
 def demoFcSmall : List Expr :=
   [.def_ "a" (.call (.sym "+") [.int 1, .int 2]), .call (.sym "trace") [.call (.sym "*") [.sym "a", .sym "a"]]]
@@ -709,16 +734,247 @@ example : ∃ fuel' o, obsOfRef (Ref.runProgram 8 demoFcSmall Ref.initSt).1 = so
   | brk l rs' => rw [hres] at h; simp [refClass] at h
   | cont l rs' => rw [hres] at h; simp [refClass] at h
 
+
+/-! ## F2 — user functions: `defn`, `fn`, closures, calls by name, recursion
+
+A program text of F2 is a list of top-level forms of `Ff true ""`, where `Ff fnOk self` is: literals,
+symbols, `def`, `set`, `begin`, `cond`, calls `(h a₁ … aₙ)`, and — in positions compiled when the
+text is loaded (`fnOk`: everywhere but inside the operands of a call) — `(fn [p₁ … pₙ] body…)` and
+`(defn name [p₁ … pₙ] body…)`, at top level or nested in function bodies to any depth: fixed arity,
+distinct parameters that are not lazy (`#p`) and not builtin names, a non-empty body in the fragment.
+The head of a call is a symbol other than `self` (the function being defined: a call of it in a
+directly compiled position may be compiled as a self tail call, `goto 0` — that is F2c) and not of
+the form `__anon…` (the generator's names for anonymous functions); the operands are in `Ff false ""`
+(operands are compiled at run time, outside any function). No name `map`, `apply`, `force`,
+`substitute` is mentioned. The head of a call is looked up at run time: it may denote a closure object
+(any arity mismatch is the script error of both sides), a first-order builtin, an array (operands
+evaluated, then an error) or any other value (itself without operands, an error with operands).
+Functions are VALUES: bound by `def`, passed as operands, returned, kept in lists. Closures capture
+the scopes of the functions they were made in and may assign to captured variables:
+`(defn mk [] (def c 0) (fn [] (set c (+ c 1))))`. Recursion (not in tail position of its own body):
+`(defn fact [n] (cond (== n 0) 1 (* n (fact (- n 1)))))`.
+
+What the proof has to deal with, beyond Fc:
+
+* **The two evaluators number closures differently.** `createClosure` pushes `.fn s.fns.length` —
+  an index into the VM's function table, which also holds templates and the helper functions of
+  operand evaluation —, the reference evaluator `.fn s.clos.length`. So values correspond only
+  modulo a map `m` from VM function ids to reference closure ids (`Sim.tr m`, through pairs; heaps
+  element by element); `m` is extended when a closure is made. Every first-order builtin commutes
+  with the translation (`Sim.prim_tr`): printing shows `fn`, comparisons refuse functions, the typing
+  rule of `BindSymbol` ignores them.
+* **Inside a callee the linear scope stack is not the static chain**: it is the callee's scopes down
+  to its function scope, on top of the CALLER's stack. `LexicalLookupSymbol` stops stage 1 at the
+  function scope and goes on (stage 2) in the closing stack of the running closure object — the
+  scopes that were live, down to the next function scope, when the closure was made —, then in that
+  of the function that made it, and so on; then (stage 3) in the template's. `Sim.ChainF`/`Sim.FnChainF`
+  say how these lists, segment by segment, are the static chain of the reference environment
+  (`Sim.GoodFn` keeps the chain of every closure object), `Sim.RelF.lexLookup` that the three stages
+  find what the reference lookup finds.
+* **A call runs in the caller's `Run` loop**: `callExpr` evaluates the operands in nested runs,
+  `CallFunction` pushes the return address; prologue (`addFuncScope`, parameters bound from the
+  stack last-first), body, epilogue (`removeScope`, `ret`) are instructions of the callee executed by
+  the same loop (`Sim.fclaimU_succ`), against `applyFn` (fresh frame under the closure's
+  environment, parameters bound first-last, body).
+* **Templates are compiled when the text is loaded**, closures are made from them at run time
+  (`Sim.GenOk`: the templates the generator made — nested ones included — are in the function table
+  of the running state; `Sim.closure_step`: `createClosure` against `fn`/`defn`). -/
+
+/-- **Segment lemma for F2 expressions**, spelled out (see `Sim.segment_Ff`, `Sim.SimF`). -/
+theorem segment_lemma_Ff (fnOk : Bool) (self : String) (e : Expr) (he : Ff fnOk self e = true) (isFn : Nat → Bool) (c : Ctx)
+    (hfn : FnameOk self c) (gs gs' : GS) (code : List Instr) (t : Bool)
+    (hc : (compile isFn c e).run gs = .ok ((code, t), gs')) (m : Nat → Nat) (s : St) (rs : Ref.St) (env : Nat)
+    (pre post : List Instr) (hrel : RelF m s rs env) (hgen : fnOk = true → GenOk gs gs' s)
+    (huser : (fnOf s s.curfunc).user = false)
+    (hcode : (fnOf s s.curfunc).code = pre ++ code ++ post) (hpc : s.pc = (pre.length : Int)) (n : Nat) :
+    match Ref.eval n e env rs with
+    | .ok v' rs' => ∃ s' m' v, v' = Sim.tr m' id id v ∧ RelF m' s' rs' env ∧ (∀ i, i < s.fns.length → m' i = m i)
+        ∧ fnOf s' s'.curfunc = fnOf s s.curfunc ∧ s'.pc = s.pc + (code.length : Int) ∧ s'.data = some v :: s.data
+        ∧ s'.linear = s.linear ∧ s'.addr = s.addr ∧ s'.curfunc = s.curfunc
+        ∧ ∃ k j, ∀ fuel, j ≤ fuel → ∀ st, (runLoop (fuel + k) st).run s = (runLoop fuel st).run s'
+    | .err rs' => ∃ k j, ∀ fuel, j ≤ fuel → ∀ st,
+        ∃ sf, (runLoop (fuel + k) st).run s = (.error .err, sf) ∧ sf.trace = rs'.trace
+    | .timeout => True
+    | .brk _ _ => False
+    | .cont _ _ => False := by
+  have h := segment_Ff fnOk self e he isFn c hfn gs ((code, t), gs') hc m s rs env pre post hrel hgen ⟨huser, hcode, hpc⟩ n
+  cases hres : Ref.eval n e env rs with
+  | ok v rs' =>
+    rw [hres] at h
+    obtain ⟨s', m', w, ⟨K, j, k, hk, H⟩, l, hv, rel, hm, -, fr, -⟩ := h
+    exact ⟨s', m', w, hv, rel, hm, l.fn, l.pc, l.data, fr.linear, fr.addr, fr.curfunc, k, j, H⟩
+  | err rs' =>
+    rw [hres] at h
+    obtain ⟨K, k, hk, j, H⟩ := h
+    exact ⟨k, j, H⟩
+  | timeout => trivial
+  | brk l rs' => rw [hres] at h; exact h
+  | cont l rs' => rw [hres] at h; exact h
+
+/-- the relation holds between the initial states, whatever the id map -/
+theorem relF_init (m : Nat → Nat) : RelF m VM.initSt Ref.initSt 0 := relF_initSt m
+
+/-- **`CompileCorrect` for the fragment F2**: whenever the reference evaluator reports an outcome
+for a program whose top-level forms are in F2 (`defn`s, `fn`s, expressions with calls of user
+functions), the VM model reports the same outcome — same class, same printed value, same trace. -/
+theorem compile_correct_on_F2 : CompileCorrectOn (fun p => FtList p = true) := by
+  intro p hp hwf fuel o ho
+  cases p with
+  | nil => exact compile_correct_on_F0c [] rfl hwf fuel o ho
+  | cons e es =>
+    obtain ⟨N, hN⟩ := runText_Ft id VM.initSt Ref.initSt (e :: es) (by simp) hp atRest_initSt rfl
+      (relF_initSt id) fuel
+    refine ⟨N, ?_⟩
+    have h := hN N (Nat.le_refl _)
+    unfold Ref.runProgram at ho
+    cases hres : Ref.evalBegin fuel (e :: es) 0 { Ref.initSt with trace := [] } with
+    | ok v rs' =>
+      rw [hres] at h
+      simp only [hres] at ho
+      obtain ⟨sf, d, hout⟩ := h
+      rw [hout]; exact ho
+    | err rs' =>
+      rw [hres] at h
+      simp only [hres] at ho
+      obtain ⟨sf, d, hout⟩ := h
+      rw [hout]; exact ho
+    | timeout => simp only [hres] at ho; cases ho
+    | brk l rs' => rw [hres] at h; exact h.elim
+    | cont l rs' => rw [hres] at h; exact h.elim
+
+set_option linter.unusedSimpArgs false
+
+/-- membership in the fragment, by computation -/
+macro "ft_mem" d:ident : tactic =>
+  `(tactic| simp [$d:ident, FtList, FfList, Ff, FaList, FfArms, okParam, okName, okBinder, okSym, okHead, foBuiltins, hoNames])
+
+/-- `(defn sq [x] (* x x)) (trace (sq 3))` -/
+def demoF2 : List Expr :=
+  [.defn "sq" ["x"] none [.call (.sym "*") [.sym "x", .sym "x"]], .call (.sym "trace") [.call (.sym "sq") [.int 3]]]
+
+theorem demoF2_in : FtList demoF2 = true := by ft_mem demoF2
+
+/-- `(defn fact [n] (cond (== n 0) 1 (* n (fact (- n 1))))) (fact 2)`: recursion -/
+def demoF2Rec : List Expr :=
+  [.defn "fact" ["n"] none [.cond [(.call (.sym "==") [.sym "n", .int 0], .int 1)]
+      (.call (.sym "*") [.sym "n", .call (.sym "fact") [.call (.sym "-") [.sym "n", .int 1]]])],
+   .call (.sym "fact") [.int 2]]
+
+theorem demoF2Rec_in : FtList demoF2Rec = true := by ft_mem demoF2Rec
+
+/-- `(defn adder [n] (fn [x] (+ x n))) (def a (adder 3)) (trace (a 4))`: a closure capturing a parameter,
+returned and called later -/
+def demoF2Clo : List Expr :=
+  [.defn "adder" ["n"] none [.fn ["x"] none [.call (.sym "+") [.sym "x", .sym "n"]]],
+   .def_ "a" (.call (.sym "adder") [.int 3]), .call (.sym "trace") [.call (.sym "a") [.int 4]]]
+
+theorem demoF2Clo_in : FtList demoF2Clo = true := by ft_mem demoF2Clo
+
+/-- `(defn f [x] (def g x) (+ g 1)) (def g 10) (trace (f 5)) g`: a `def` inside a function binds in
+the function's scope; `(defn f [] 7) (def k f) (k)`: a function as a value; `(defn f [x y] x) (f 1)`: wrong
+arity; `(defn mk [] (def c 0) (fn [] (set c (+ c 1)))) (def k (mk)) (k) (k) (trace (k))`: a closure
+assigning to a captured local; `(defn outer [a] (defn inner [b] (cons a b)) inner) (def f (outer 1))
+(def g (outer 2)) (trace (f 10)) (g 20)`: a nested `defn`, two closures of one template -/
+def demoF2Scope : List Expr :=
+  [.defn "f" ["x"] none [.def_ "g" (.sym "x"), .call (.sym "+") [.sym "g", .int 1]], .def_ "g" (.int 10),
+   .call (.sym "trace") [.call (.sym "f") [.int 5]], .sym "g"]
+def demoF2Val : List Expr := [.defn "f" [] none [.int 7], .def_ "k" (.sym "f"), .call (.sym "k") []]
+def demoF2Arity : List Expr := [.defn "f" ["x", "y"] none [.sym "x"], .call (.sym "f") [.int 1]]
+def demoF2Counter : List Expr :=
+  [.defn "mk" [] none [.def_ "c" (.int 0), .fn [] none [.set_ "c" (.call (.sym "+") [.sym "c", .int 1])]],
+   .def_ "k" (.call (.sym "mk") []), .call (.sym "k") [], .call (.sym "k") [], .call (.sym "trace") [.call (.sym "k") []]]
+def demoF2Nested : List Expr :=
+  [.defn "outer" ["a"] none [.defn "inner" ["b"] none [.call (.sym "cons") [.sym "a", .sym "b"]], .sym "inner"],
+   .def_ "f" (.call (.sym "outer") [.int 1]), .def_ "g" (.call (.sym "outer") [.int 2]),
+   .call (.sym "trace") [.call (.sym "f") [.int 10]], .call (.sym "g") [.int 20]]
+
+example : FtList demoF2Scope = true := by ft_mem demoF2Scope
+example : FtList demoF2Val = true := by ft_mem demoF2Val
+example : FtList demoF2Arity = true := by ft_mem demoF2Arity
+example : FtList demoF2Counter = true := by ft_mem demoF2Counter
+example : FtList demoF2Nested = true := by ft_mem demoF2Nested
+
+theorem demoF2_ref :
+    refClass (Ref.evalBegin 12 demoF2 0 { Ref.initSt with trace := [] }) = some (some (.int 9#64)) := by
+  simp [demoF2, Ref.evalBegin, Ref.eval, Ref.evalArgs, Ref.applyFn, Ref.bindParams, Ref.newFrame,
+    Ref.define, Ref.setVar, Ref.lookup, Ref.lookupIn, Ref.initSt, Ref.assocSet, Ref.globalNames, coreBuiltins,
+    refClass, List.lookup, prim, isFunction, allInts, intOfLit, Ref.isLazyParam, rebindOk, tyOf]
+
+set_option maxRecDepth 4000 in
+theorem demoF2Rec_ref :
+    refClass (Ref.evalBegin 30 demoF2Rec 0 { Ref.initSt with trace := [] }) = some (some (.int 2#64)) := by
+  have trb : ∀ b : Bool, truthy (.bool b) = b := fun _ => rfl
+  simp [demoF2Rec, Ref.evalBegin, Ref.eval, Ref.evalArgs, Ref.applyFn, Ref.bindParams, Ref.newFrame, Ref.evalCond,
+    Ref.define, Ref.setVar, Ref.lookup, Ref.lookupIn, Ref.initSt, Ref.assocSet, Ref.globalNames, coreBuiltins,
+    refClass, List.lookup, prim, isFunction, allInts, intOfLit, Ref.isLazyParam, rebindOk, tyOf, isCmp, compareVals,
+    cmpResult, trb]
+
+set_option maxRecDepth 4000 in
+theorem demoF2Clo_ref :
+    refClass (Ref.evalBegin 16 demoF2Clo 0 { Ref.initSt with trace := [] }) = some (some (.int 7#64)) := by
+  simp [demoF2Clo, Ref.evalBegin, Ref.eval, Ref.evalArgs, Ref.applyFn, Ref.bindParams, Ref.newFrame,
+    Ref.define, Ref.setVar, Ref.lookup, Ref.lookupIn, Ref.initSt, Ref.assocSet, Ref.globalNames, coreBuiltins,
+    refClass, List.lookup, prim, isFunction, allInts, intOfLit, Ref.isLazyParam, rebindOk, tyOf]
+
+/-- instances of `compile_correct_on_F2` with a real outcome on the reference side (value 9 with one
+traced call; value 2 by a recursive function; value 7 through a closure that captured a parameter);
+the same texts through the harness print `ok 9 T[9]`, `ok 2 T[]`, `ok 7 T[7]` -/
+example : ∃ fuel' o, obsOfRef (Ref.runProgram 12 demoF2 Ref.initSt).1 = some o
+    ∧ obsOfVM (VM.runText fuel' demoF2 VM.initSt).1 = some o := by
+  have h := demoF2_ref
+  cases hres : Ref.evalBegin 12 demoF2 0 { Ref.initSt with trace := [] } with
+  | ok v rs' =>
+    have ho : obsOfRef (Ref.runProgram 12 demoF2 Ref.initSt).1 = some (.ok (pr rs'.heap v) rs'.trace) := by
+      unfold Ref.runProgram; simp only [hres]; rfl
+    obtain ⟨f, hf⟩ := compile_correct_on_F2 demoF2 demoF2_in (by decide) 12 _ ho
+    exact ⟨f, _, ho, hf⟩
+  | err rs' => rw [hres] at h; simp [refClass] at h
+  | timeout => rw [hres] at h; simp [refClass] at h
+  | brk l rs' => rw [hres] at h; simp [refClass] at h
+  | cont l rs' => rw [hres] at h; simp [refClass] at h
+
+example : ∃ fuel' o, obsOfRef (Ref.runProgram 30 demoF2Rec Ref.initSt).1 = some o
+    ∧ obsOfVM (VM.runText fuel' demoF2Rec VM.initSt).1 = some o := by
+  have h := demoF2Rec_ref
+  cases hres : Ref.evalBegin 30 demoF2Rec 0 { Ref.initSt with trace := [] } with
+  | ok v rs' =>
+    have ho : obsOfRef (Ref.runProgram 30 demoF2Rec Ref.initSt).1 = some (.ok (pr rs'.heap v) rs'.trace) := by
+      unfold Ref.runProgram; simp only [hres]; rfl
+    obtain ⟨f, hf⟩ := compile_correct_on_F2 demoF2Rec demoF2Rec_in (by decide) 30 _ ho
+    exact ⟨f, _, ho, hf⟩
+  | err rs' => rw [hres] at h; simp [refClass] at h
+  | timeout => rw [hres] at h; simp [refClass] at h
+  | brk l rs' => rw [hres] at h; simp [refClass] at h
+  | cont l rs' => rw [hres] at h; simp [refClass] at h
+
+example : ∃ fuel' o, obsOfRef (Ref.runProgram 16 demoF2Clo Ref.initSt).1 = some o
+    ∧ obsOfVM (VM.runText fuel' demoF2Clo VM.initSt).1 = some o := by
+  have h := demoF2Clo_ref
+  cases hres : Ref.evalBegin 16 demoF2Clo 0 { Ref.initSt with trace := [] } with
+  | ok v rs' =>
+    have ho : obsOfRef (Ref.runProgram 16 demoF2Clo Ref.initSt).1 = some (.ok (pr rs'.heap v) rs'.trace) := by
+      unfold Ref.runProgram; simp only [hres]; rfl
+    obtain ⟨f, hf⟩ := compile_correct_on_F2 demoF2Clo demoF2Clo_in (by decide) 16 _ ho
+    exact ⟨f, _, ho, hf⟩
+  | err rs' => rw [hres] at h; simp [refClass] at h
+  | timeout => rw [hres] at h; simp [refClass] at h
+  | brk l rs' => rw [hres] at h; simp [refClass] at h
+  | cont l rs' => rw [hres] at h; simp [refClass] at h
+
 /-! ## What is proved of `CompileCorrect`, and what is missing -/
 
-/-- the programs covered by a theorem: every top-level form in Fv, or every top-level form in Fc -/
-def InProvedFragment (p : List Expr) : Prop := FvList p = true ∨ FcList p = true
+/-- the programs covered by a theorem: every top-level form in Fv, or every top-level form in Fc,
+or every top-level form in F2 -/
+def InProvedFragment (p : List Expr) : Prop := FvList p = true ∨ FcList p = true ∨ FtList p = true
 
-/-- **The part of `CompileCorrect` that is NOT proved**: programs that are neither in Fv nor in
-Fc — i.e. using calls whose head is not the name of a first-order builtin (user functions,
-`map`/`apply`/`force`, computed heads), `for`/`break`/`continue`, `fn`/`defn`, an empty
-`newScope`, or (together with calls or array literals) a
-binder that re-uses a builtin name. Held by the 3-way `eval` correspondence on every run, not by a theorem. -/
+/-- **The part of `CompileCorrect` that is NOT proved**: programs that are in none of Fv, Fc, F2 —
+i.e. using user functions together with `let`/`and`/`or`/`for`/array literals (F2 has user
+functions but not yet those forms; Fc has those forms but only builtin calls), a `fn`/`defn` inside
+an operand of a call (compiled at run time), with a rest parameter, lazy parameters or a self call
+in a directly compiled position, `map`/`apply`/`force`/`substitute`, computed call heads,
+`break`/`continue` (and so loops that use them), an empty `newScope`, or (together with calls or
+array literals) a binder that re-uses a builtin name. Held by the 3-way `eval` correspondence on
+every run, not by a theorem. -/
 def CompileCorrectOutsideProved : Prop := CompileCorrectOn (fun p => ¬ InProvedFragment p)
 
 /-- `compile_correct_partial`: what is proved of the semantic statement.
@@ -730,15 +986,20 @@ def CompileCorrectOutsideProved : Prop := CompileCorrectOn (fun p => ¬ InProved
      (distinct names) — `compile_correct_on_Fv`;
    * Fc — the same with binder names that are not builtin names, plus calls of first-order
      builtins (arithmetic, comparisons, `not`, lists, arrays, strings, `trace`), operands evaluated
-     in nested runs, and array literals — `compile_correct_on_Fc`;
+     in nested runs, array literals, and `for` loops without `break`/`continue` — `compile_correct_on_Fc`;
+   * F2 — `defn`/`fn` of fixed arity at top level and nested, closures capturing (and assigning to)
+     locals of the functions they were made in, calls of user functions by name (also through
+     variables: functions are values), recursion, first-order builtins, `def`/`set`/`begin`/`cond`;
+     values related modulo the numbering of closures — `compile_correct_on_F2`;
    * for the effect-free sub-fragment F0c with explicit fuel on both sides — `compile_correct_F0c`;
 2. the full `CompileCorrect` follows from its restriction to the remaining programs
    (`CompileCorrectOutsideProved`, the precise unproved remainder);
 3. the layout half for `begin`/`cond`/`and`/`or` as before (and `gen_for_layout` for loops).
 
-MISSING (held by the `eval` correspondence only): `CompileCorrectOutsideProved` — F1
-(`for`/`break`/`continue`), F2 (closures, user calls, varargs, recursion), F3 (self tail calls,
-`map`/`apply`, lazy parameters). -/
+MISSING (held by the `eval` correspondence only): `CompileCorrectOutsideProved` — `break`/`continue`
+(the rest of F1; generator-side groundwork in Proofs/SimFbGen.lean), the rest of F2 (the Fc forms
+next to user functions, `fn`/`defn` inside operands, varargs), F3 (self tail calls, `map`/`apply`,
+lazy parameters). -/
 theorem compile_correct_partial :
     CompileCorrectOn InProvedFragment
     ∧ (CompileCorrectOutsideProved → CompileCorrect)
@@ -749,9 +1010,10 @@ theorem compile_correct_partial :
         ∃ pre, asmSC isOr cs = pre ++ asmSC isOr (cs.drop i)) := by
   have hin : CompileCorrectOn InProvedFragment := by
     intro p hp hwf
-    rcases hp with hp | hp
+    rcases hp with hp | hp | hp
     · exact compile_correct_on_Fv p hp hwf
     · exact compile_correct_on_Fc p hp hwf
+    · exact compile_correct_on_F2 p hp hwf
   refine ⟨hin, fun hout p hwf => ?_, gen_begin_pops_between,
     fun arms dflt i _ => asmCond_suffix arms dflt i, asmSC_suffix⟩
   by_cases h : InProvedFragment p
